@@ -350,6 +350,64 @@ with dagger as d{T}, power(2):
 discard(q{T})
 result("{T}a", 1)
 ''', must_reject=True)
+t("while_else_break", "While.orelse(+break)", '''
+i{T} = 0
+while i{T} < 3:
+    i{T} += 1
+    if i{T} == 2:
+        break
+else:
+    result("{T}else", 1)
+result("{T}end", i{T})
+''')
+t("while_else_break_not_taken", "While.orelse(+break not taken)", '''
+i{T} = 0
+while i{T} < 3:
+    i{T} += 1
+    if i{T} == 7:
+        break
+else:
+    result("{T}else", 1)
+result("{T}end", i{T})
+''')
+t("for_else_break", "For.orelse(+break)", '''
+for i{T} in range(3):
+    if i{T} == 1:
+        break
+else:
+    result("{T}else", 1)
+result("{T}end", 2)
+''')
+t("for_else_continue", "For.orelse(+continue)", '''
+for i{T} in range(3):
+    if i{T} == 1:
+        continue
+    result("{T}i", i{T})
+else:
+    result("{T}else", 1)
+''')
+t("call_doublestar_surplus", "Call(**, surplus)", '''
+result("{T}k", g(1, 2, **{"a": 5}))
+''')
+t("call_doublestar_then_kw", "Call(**, then keyword)", '''
+result("{T}k", g(1, 2, **{"c": 1}, b=4))
+''')
+t("call_doublestar_annassign", "Call(**, AnnAssign)", '''
+x{T}: int = g(1, 2, **{"b": 3})
+result("{T}k", x{T})
+''')
+t("call_doublestar_partial", "Call(**, partial)", '''
+result("{T}k", g(1, **{"b": 2}))
+''')
+t("comptime_keyword", "Call.keywords(comptime)", '''
+result("{T}k", comptime(1, foo=2))
+''')
+t("comptime_keyword_only", "Call.keywords(comptime, only)", '''
+result("{T}k", comptime(x=1))
+''')
+t("py_keyword", "Call.keywords(py)", '''
+result("{T}k", py(1, foo=2))
+''')
 t("call_starred", "Call(Starred)", '''
 p{T} = (1, 2)
 result("{T}k", g(*p{T}))
